@@ -13,6 +13,7 @@ import (
 
 func TestC17(t *testing.T) {
 	runProp(t, "C17", func(e *env) {
+		e.coldStage(10, 24, 25)
 		r := e.r
 		scratch := make([]byte, 0, 64)
 		evalStr := func(kind string, s []byte) error {
